@@ -96,6 +96,7 @@ impl SourceFileAnalyzer {
             let tokenize_result = Tokenizer::new(line, &mut self.string_manager)
                 .skip_bytes(line_number_end)
                 .remaining_tokens_and_ranges();
+            let mut is_defined = false;
             match tokenize_result {
                 Ok((tokens, token_ranges)) => {
                     for (token, range) in tokens.iter().zip(&token_ranges) {
@@ -106,12 +107,20 @@ impl SourceFileAnalyzer {
                         self.warn_line(i, "Line contains no statements and will not be defined.");
                     } else {
                         self.program.set_numbered_line(basic_line_number, tokens);
+                        is_defined = true;
                     }
                 }
                 Err(err) => self.messages.push(DiagnosticMessage::Error(i, err.into())),
             }
-            self.source_file_map
-                .add(basic_line_number, source_line_ranges);
+            // Only lines that actually define a BASIC line may claim its number in the
+            // source map: otherwise an empty or untokenizable redefinition would hijack
+            // the mapping of the earlier definition that's still in the program.
+            if is_defined {
+                self.source_file_map
+                    .add(basic_line_number, source_line_ranges);
+            } else {
+                self.source_file_map.add_undefined(source_line_ranges);
+            }
             self.line_tokens.push(line_tokens);
         }
         self.lines = lines;
